@@ -538,7 +538,10 @@ Lemma op_create_account : forall a ad, awf a -> aext a (create_account a ad) /\ 
 Proof.
   intros a ad Hw. unfold create_account, create_object.
   destruct (find (objs a) ad) as [p|] eqn:Hf.
-  - unfold upd_obj. cbn. rewrite find_set_same. split.
+  - destruct (o_deleted p).
+    { pose proof (step_create_object a ad Hw) as (H1 & H2 & _). unfold create_object in H1, H2. rewrite Hf in H1, H2.
+      cbn in H1, H2. auto. }
+    unfold upd_obj. cbn. rewrite find_set_same. split.
     + eapply aext_one with (e := EResetObject ad p); [reflexivity | reflexivity |].
       cbn. rewrite !set_set, (set_same_id _ _ _ Hf), journal_eta.
       unfold aeq; cbn. repeat split; auto using objs_sim_refl.
